@@ -96,7 +96,7 @@ class Engine:
             for e in extra:
                 s.add(e)
             r = s.check()
-            if r == z3.unknown:
+            if r == z3.unknown and getattr(self, "retry_unknown", True):
                 # second opinion: the default solver stack (different arithmetic core), twice the time
                 s = z3.Solver()
                 s.set("timeout", 2 * self.timeout_ms)
